@@ -405,13 +405,15 @@ def run(ctx):
             "reported_by_origin": {}, "cli_runs": 0, "cli_lines": 0, "guesser_decided": 0,
             "limit": {}, "max_omen": {}, "reported_above_max_omen": 0}
     dist["full"] = full
-    n_full = ctx.scale(48, 600)
+    n_full = ctx.scale(48, 300)
     n_cli_models = ctx.scale(12, 60)
+    fbudget = {"cap": ctx.scale(4000, 8000), "per_level": 0.25, "per_model": ctx.scale(0.9, 1.0)}
+    t_full = time.time()
     fkinds = ["full_mixed", "full_mailweb", "full_small_alphabet", "full_plain", "full_mixed", "full_mailweb"]
     pending = []
     for i in range(n_full):
         cfg = of.gen_full_training(ctx.rng, fkinds[i % len(fkinds)] if i < 2 * len(fkinds) else None)
-        r = explore_full(ctx, cfg, sc_dir, i, budget, 40 if i < n_cli_models else 0)
+        r = explore_full(ctx, cfg, sc_dir, i, fbudget, 40 if i < n_cli_models else 0)
         if r is None:
             full["unusable_lists"] += 1
             continue
@@ -456,7 +458,10 @@ def run(ctx):
             samples.append({"kind": cfg["kind"], "ngram": cfg["ngram"], "encoding": cfg["encoding"], "alphabet": T.alphabet,
                             "training": cfg["passwords"][:6], "rows": (ew[:4] + rows2[:3])})
         try:
-            cases.append(coq_case(T, sc, G, E, rows + rows2, consts))
+            # the model is evaluated on a part of the rows (the oracles above saw all of them): what the scorer reports
+            # for e-mail / web site looking strings first
+            rows2m = sorted(rows2, key=lambda x: (x["category"] not in ("e", "w"), x["trainer"] is None))[:200]
+            cases.append(coq_case(T, sc, G, E, rows[:200] + rows2m, consts))
             case_cfg.append(cfg)
         except KeyError as e:
             missing_consts.add(str(e))
@@ -465,6 +470,8 @@ def run(ctx):
         vio += v0
         full["cli_runs"] += 1
         full["cli_lines"] += nl
+
+    full["seconds"] = round(time.time() - t_full, 1)
 
     # ---- correspondence: Coq evaluates the models on the same tables / strings
     per = 6
